@@ -1300,7 +1300,7 @@ func runWith(input string, agg *errAggregator) string {
 		rhtMs, _ = strconv.Atoi(c.rht)
 	}
 	var late atomic.Bool
-	prevStart := make([]time.Time, c.inst)
+	prevEnd := make([]time.Time, c.inst)
 	prevIdx := make([]int, c.inst)
 	for i := range prevIdx {
 		prevIdx[i] = -1
@@ -1310,13 +1310,18 @@ func runWith(input string, agg *errAggregator) string {
 	timedShoot := func(g, idx int, a core.Ammo) {
 		start := time.Now()
 		if prevIdx[g] >= 0 && idleMs > 0 {
+			// the connection was idle since the gun's previous shot was ANSWERED
 			nominal := (idx - prevIdx[g]) * c.gap
-			if nominal < idleMs && start.Sub(prevStart[g]) > time.Duration(idleMs)*time.Millisecond*6/10 {
+			if c.mode == "seq" {
+				nominal += (idx - prevIdx[g] - 1) * c.delay // the shots of the other guns in between are answered late as well
+			}
+			if nominal < idleMs && start.Sub(prevEnd[g]) > time.Duration(idleMs)*time.Millisecond*6/10 {
 				late.Store(true)
 			}
 		}
-		prevStart[g], prevIdx[g] = start, idx
+		prevIdx[g] = idx
 		guns[g].Shoot(a)
+		prevEnd[g] = time.Now()
 		if rhtMs > 0 && c.delay < rhtMs && time.Since(start) > time.Duration(rhtMs)*time.Millisecond*6/10 {
 			late.Store(true)
 		}
@@ -2119,6 +2124,8 @@ func timedCases(r *rand.Rand, n int) []string {
 		{gap: 1300, hs: "def", inst: 2, shots: 4, mode: "par", plainOnly: true}, // defaults again, parallel
 		{gap: 450, delay: 450, idle: "300", rht: "150", inst: 1, shots: 2},      // both bite
 		{delay: 1250, hs: "def", inst: 1, shots: 2, plainOnly: true},            // a slow target, all defaults: no timeout applies
+		{gap: 900, rht: "300", inst: 1, shots: 3},                               // round 4: a response-header timeout well below the pauses has no say
+		{gap: 750, rht: "250", hs: "def", inst: 2, shots: 4, mode: "par", plainOnly: true},
 	}
 	var out []string
 	for i := 0; i < n; i++ {
@@ -2449,7 +2456,7 @@ func sample(l []string, k, off int) []string {
 
 func c09Gen(r *rand.Rand, tier string) []string {
 	// the cases that pause come first: they cost wall time, not CPU, and overlap with everything after them
-	nTimed := 21
+	nTimed := 23
 	if tier == "thorough" {
 		nTimed = 240
 	}
